@@ -184,6 +184,9 @@ func runStage(prop, tier string, seed int64, st Stage) []childResult {
 			_ = os.MkdirAll(childTmp, 0o755)
 			defer os.RemoveAll(childTmp)
 			e = append(e, "TMPDIR="+childTmp)
+			// a soft memory limit per child: the collector works harder long before 16 children
+			// could exhaust the machine (a harness leak once did)
+			e = append(e, "GOMEMLIMIT=3GiB")
 			cmd.Env = e
 			lf, err := os.Create(logPath)
 			if err != nil {
